@@ -561,6 +561,20 @@ var untidies = []untidy{
 		}
 		a.Types = append(a.Types, t)
 	}},
+	{"table-without-columns", func(g *mgen) {
+		// a table (or two) whose body is only `...`, alone or referred to by another table
+		a := g.pickSvc()
+		t := &mType{Kind: "table", Name: fmt.Sprintf("Hollow%d", g.n())}
+		a.Types = append(a.Types, t)
+		if g.r.Chance(1, 3) {
+			a.Types = append(a.Types, &mType{Kind: "table", Name: fmt.Sprintf("Hollow%d", g.n())})
+		}
+		if g.r.Chance(1, 3) {
+			if o := a.findType("table"); o != nil && o != t {
+				o.Lines = append(o.Lines, g.fld()+" <: "+t.Name)
+			}
+		}
+	}},
 	{"table-odd-columns", func(g *mgen) {
 		_, t := g.pickType("table")
 		for k := g.r.Range(1, 3); k > 0; k-- {
@@ -972,6 +986,10 @@ func deltaVariant(r *fw.Rand, m *model) *model {
 		}
 		if r.Chance(1, 3) && a.Name != projectApp && a.Name != seqsApp {
 			g.newType(a, "table")
+		}
+		if r.Chance(1, 6) && a.Name != projectApp && a.Name != seqsApp {
+			// the new version adds a table without columns
+			a.Types = append(a.Types, &mType{Kind: "table", Name: fmt.Sprintf("Hollow%d", g.n())})
 		}
 	}
 	return v
